@@ -662,6 +662,10 @@ def oldOptsFlag : List Instr := [.xfer 0 0 .move .res, .xfer 1 0 .move .res, .re
 /-- `optional::to_container` before fix 9030486: the element of the source itself went to `container::make`, which moves out of it -/
 def oldOptToContainer (n : Nat) : List Instr := xferAll 0 n .move .res
 
+/-- `parse::repetition_plus` before fix aef45df: `result_type{std::move(first)}` - the first result (here an rvalue argument) went
+through an initializer_list and was copied into the vector; the remaining results were moved -/
+def oldParseRepPlus (n : Nat) : List Instr := .xfer 0 0 .copy .res :: (List.range (n - 1)).map fun j => .xfer 0 (j + 1) .move .res
+
 /-- the outcome of an operation: the machine state after its program -/
 def exec (o : Op) (inp : Input) : St := run (prog o inp) (St.init (inp.args.map (·.2)))
 
